@@ -290,6 +290,9 @@ void EventLoop::doPendingFunctors()
     functor();
     MUDUO_VERIF_POINT("EventLoop::doPendingFunctors:functorDone", this);
   }
+  // destroy the functors while callingPendingFunctors_ is still set: the destructor of
+  // something a functor owns may call queueInLoop(), and that call must wake the loop
+  functors.clear();
   callingPendingFunctors_ = false;
 }
 
